@@ -218,7 +218,7 @@ impl Display for PrettyDecimal {
                 // Here we assume mantissa is all ASCII (given it's [0-9.]+)
                 let mut initial_integer = true;
                 // caluclate the first comma position out of the integral portion digits.
-                let mut comma_pos = (mantissa.len() - scale) % 3;
+                let mut comma_pos = mantissa.len().saturating_sub(scale) % 3;
                 if comma_pos == 0 {
                     comma_pos = 3;
                 }
@@ -236,7 +236,8 @@ impl Display for PrettyDecimal {
                     write!(f, "0")?;
                 }
                 if !remainder.is_empty() {
-                    write!(f, ".{}", remainder)?;
+                    // fraction may need leading zeros, e.g. mantissa 5 with scale 2 is .05
+                    write!(f, ".{:0>scale$}", remainder)?;
                 }
                 Ok(())
             }
